@@ -25,7 +25,9 @@ Spare == {Table(ColsS, <<RowS(5, 2), RowS(6, 0)>>)}
 
 Preds(l) == {[op |-> "ge", col |-> "k", c |-> 1], [op |-> "notnull", col |-> "v", c |-> 0]}
             \cup (IF l.kind = "batch" THEN {[op |-> "eq", col |-> "img", c |-> 1]} ELSE {})
-Hows(l) ==
+(* tables of more than 6 rows: only the derivations whose permitted results need no enumeration of permutations *)
+HowsBig(l) == {[name |-> "head", n |-> 5], [name |-> "tail", n |-> 7], [name |-> "copy"]} \cup {[name |-> "filter", pred |-> p] : p \in Preds(l)}
+Hows(l) == IF NRows(l.tab) > 6 THEN HowsBig(l) ELSE
        {[name |-> "head", n |-> n] : n \in 1..3} \cup {[name |-> "tail", n |-> n] : n \in 1..2}
   \cup {[name |-> "filter", pred |-> p] : p \in Preds(l)}
   \cup {[name |-> "sample", n |-> n] : n \in 1..Min2(2, NRows(l.tab))}
@@ -44,7 +46,8 @@ Ops(l) ==
   \cup (IF l.bin = 1 /\ NRows(l.tab) > 0 THEN {[name |-> "observe", via |-> v] : v \in Vias} ELSE {})
   \cup (IF l.bin = 1 THEN {[name |-> "fork", how |-> h] : h \in {"copy", "replace_order", "binning1", "reshape"}} ELSE {})
   \cup (IF l.bin = 1 /\ NRows(l.tab) > 0
-        THEN {[name |-> "groupby", col |-> c, gop |-> g] : c \in {"k", "s"} \cup (IF l.kind = "batch" THEN {"img"} ELSE {}), g \in GOps}
+        THEN {[name |-> "groupby", col |-> c, gop |-> g] : c \in {"k", "s"} \cup (IF l.kind = "batch" THEN {"img"} ELSE {}),
+                                                              g \in IF NRows(l.tab) > 6 THEN {x \in GOps : x.name \in {"none", "align", "apply"}} ELSE GOps}
         ELSE {})
 
 KeyFamilies == {<<0, 1, 0, 1>>, <<2, 0, 1, 0>>, <<1, 1, 0, 2>>}
@@ -53,6 +56,10 @@ SmallLoaders == {Loader("batch", Table(ColsB, <<RowB(1, q[1], 0), RowB(2, q[2], 
 (* "gap" registries: the image ids are not 0..n-1 (what filter(img = 1) leaves behind), so the next automatic id
    must skip an id that is in use *)
 GapLoaders == {Loader("batch", Table(ColsB, <<RowB(3, q[3], 1), RowB(4, q[4], 1)>>), <<1>>, -1, 1) : q \in KeyFamilies}
+(* larger batches with interleaved image ids (sorting routines that are not stable only show on more than a handful of rows) *)
+BigPatterns == {<<0, 1, 0, 1, 0, 1, 0, 1, 0, 1, 0, 1>>, <<0, 0, 1, 0, 1, 1, 0, 1, 0, 0>>, <<1, 0, 0, 1, 1, 0, 1, 0, 1, 1, 0, 0, 1>>}
+BigLoaders == {Loader("batch", Table(ColsB, [i \in 1..Len(pat) |-> RowB(i, i % 3, pat[i])]), <<0, 1>>, -1, 1) : pat \in BigPatterns}
+InitBig == /\ L \in BigLoaders /\ T \in Spare /\ S = NoLdr /\ depth = 0 /\ hist = <<>> /\ start = [L |-> L, T |-> T]
 SmallLoadersAll == SmallLoaders \cup GapLoaders
 Init == /\ S = NoLdr /\ L \in (IF SmallInit THEN SmallLoadersAll ELSE Batch2 \cup Batch21 \cup Single3 \cup Empty) /\ T \in Spare
         /\ depth = 0 /\ hist = <<>> /\ start = [L |-> L, T |-> T]
